@@ -3,6 +3,7 @@ import sys, re, json
 from .facts import *
 
 F = None
+CTX = None      # path-sensitive walk: {"disc": regex of the scrutinee's discriminant origin, "val": variant value, "env": {local: const}, "built": set()}
 
 WRITER = [
     (r"OctetsMut.*::put_u8$", "u8", 1), (r"OctetsMut.*::put_u16$", "u16", 2), (r"OctetsMut.*::put_u32$", "u32", 4), (r"OctetsMut.*::put_u64$", "u64", 8),
@@ -115,6 +116,60 @@ def good_blocks(f):
     return good
 
 
+def _ctx_step(f, bb):
+    """update CTX['env'] with what block bb's statements make known (constants, copies, the scrutinee's discriminant, comparisons of known values)"""
+    if CTX is None: return
+    env = CTX["env"]
+    def val(op):
+        if op["k"] == "const":
+            v = op.get("val")
+            return v if isinstance(v, int) else None
+        if op["k"] in ("copy", "move") and not op["place"]["proj"]: return env.get(op["place"]["local"])
+        return None
+    for st in f.blocks[bb]["stmts"]:
+        if st["k"] != "assign": continue
+        rv = st["rv"]
+        if rv["k"] == "aggr" and (rv.get("path") or "").endswith("packet::Packet") and rv.get("vname"): CTX["built"].add(rv["vname"])
+        if st["place"]["proj"]: continue
+        l = st["place"]["local"]; env.pop(l, None)
+        if rv["k"] in ("use", "cast"):
+            v = val(rv["op"])
+            if v is not None: env[l] = v
+        elif rv["k"] == "discr" and CTX.get("disc") and re.search(CTX["disc"], fmt(f._origin_of_def(st, 0))): env[l] = CTX["val"]
+        elif rv["k"] == "bin":
+            a, b = val(rv["a"]), val(rv["b"])
+            if a is not None and b is not None:
+                op = rv["op"]
+                r_ = {"Eq": a == b, "Ne": a != b, "Lt": a < b, "Le": a <= b, "Gt": a > b, "Ge": a >= b}.get(op)
+                if r_ is not None: env[l] = int(r_)
+        elif rv["k"] == "un" and rv.get("op") == "Not":
+            a = val(rv["a"])
+            if a in (0, 1): env[l] = 1 - a
+    t = f.blocks[bb]["term"]
+    if t["k"] == "call" and not t["dest"]["proj"]: env.pop(t["dest"]["local"], None)
+
+
+def _ctx_switch(f, bb):
+    """the only successor of switch block bb consistent with what is known, or None"""
+    if CTX is None: return None
+    t = f.blocks[bb]["term"]
+    if t["k"] != "switch": return None
+    on = t["on"]
+    v = None
+    if on["k"] in ("copy", "move") and not on["place"]["proj"]: v = CTX["env"].get(on["place"]["local"])
+    if v is None and CTX.get("disc") and re.search(CTX["disc"], fmt(f.origin_of_operand(on))): v = CTX["val"]
+    if v is None: return None
+    return dict((x, y) for x, y in t["targets"]).get(v, t["otherwise"])
+
+
+def _ctx_src(f, t, default):
+    """the written value of a WRITER call when it is known on this path"""
+    if CTX is None or len(t["args"]) < 2: return default
+    a = t["args"][-1]
+    if a["k"] in ("copy", "move") and not a["place"]["proj"] and a["place"]["local"] in CTX["env"]: return str(CTX["env"][a["place"]["local"]])
+    return default
+
+
 def region(f, start, stop, table, good, loops_seen=None, depth=0):
     """regular expression (list) of codec items on good paths from block `start` up to (not including) `stop`"""
     out = []
@@ -140,7 +195,7 @@ def region(f, start, stop, table, good, loops_seen=None, depth=0):
                 tt = f.blocks[x]["term"]
                 if tt["k"] == "call" and (tt.get("resolved") or "").endswith("::next") and tt["args"] and tt["args"][0]["k"] in ("copy", "move"):
                     ty = f.locals[tt["args"][0]["place"]["local"]]["ty"]
-                    m = re.search(r"array::IntoIter<u8, (\d+)>", json.dumps(ty))
+                    m = re.search(r"array::IntoIter<[^,<>]+, (\d+)>", json.dumps(ty))
                     if m: trip = int(m.group(1))
                     elif "slice::Iter" in json.dumps(ty):
                         # `for b in octets.iter()` over a slice that is visibly an unsized fixed array (`&ip.octets()` passed as `&[u8]`, also through an inlined helper)
@@ -152,6 +207,7 @@ def region(f, start, stop, table, good, loops_seen=None, depth=0):
             exits = [s for x in body_nodes for s in f.succ[x] if s not in body_nodes and s in good]
             bb = exits[0] if exits else None
             continue
+        _ctx_step(f, bb)
         t = f.blocks[bb]["term"]
         if t["k"] == "call":
             c = classify(f, t, table)
@@ -164,6 +220,7 @@ def region(f, start, stop, table, good, loops_seen=None, depth=0):
                 if width == "arg-array" or (kind == "raw" and width is None):
                     width = static_array_len(f, t["args"][-1])
                 src = fmt(f.origin_of_operand(t["args"][-1])) if table is WRITER and len(t["args"]) > 1 else None
+                if table is WRITER: src = _ctx_src(f, t, src)
                 out.append((kind, width, src, t["span"]["l"][0]))
             elif method_of_name(t.get("resolved") or t.get("callee") or "") in ("try_fold", "fold", "for_each", "try_for_each", "rfold", "try_rfold") and depth < 4:
                 # an iterator consumer running a closure once per element: the closure body is a loop body
@@ -182,6 +239,9 @@ def region(f, start, stop, table, good, loops_seen=None, depth=0):
         if not succs: break
         if len(succs) == 1:
             bb = succs[0]; continue
+        chosen = _ctx_switch(f, bb)
+        if chosen is not None and chosen in good:
+            bb = chosen; continue
         # branch: find merge point = nearest common post-dominator among good blocks
         pd = f.postdominators()
         common = None
@@ -391,8 +451,11 @@ def renet_packet_tables(facts):
     sw, arms, other = arms_of(w, r"^discr\(\*P1\(self\)\)")
     names = {v["discr"]: v["name"] for v in F.adts["renet::packet::Packet"]["variants"]}
     W = {}
+    global CTX
     for v, tgt in arms.items():
-        e = pair_len_prefix(region(w, tgt, None, WRITER, gw))
+        CTX = {"disc": r"^discr\(\*P1\(self\)\)$", "val": v, "env": {}, "built": set()}
+        try: e = pair_len_prefix(region(w, tgt, None, WRITER, gw))
+        finally: CTX = None
         tag = None
         if e and e[0][0] == "u8" and e[0][2] is not None and e[0][2].isdigit(): tag = int(e[0][2]); e = e[1:]
         W[names[v]] = (tag, e)
@@ -403,18 +466,28 @@ def renet_packet_tables(facts):
     r = F.fn("packet::Packet::from_bytes"); gr = good_blocks(r)
     sw, arms, other = arms_of(r, r"get_u8")
     R = {}
+    # reads hoisted in front of the dispatch on the tag (everything between the tag read and the switch) belong to every arm
+    prefix = region(r, 0, sw, READER, gr) if sw is not None else []
+    prefix = prefix[1:] if prefix and prefix[0][0] == "u8" else prefix
+    tag_on = r.blocks[sw]["term"]["on"] if sw is not None else None
     for v, tgt in arms.items():
-        e = region(r, tgt, None, READER, gr)
+        CTX = {"disc": None, "val": v, "env": {}, "built": set()}
+        if tag_on is not None and tag_on["k"] in ("copy", "move") and not tag_on["place"]["proj"]: CTX["env"][tag_on["place"]["local"]] = v
+        try:
+            e = prefix + region(r, tgt, None, READER, gr)
+            built_path = set(CTX["built"])
+        finally: CTX = None
         # which variant does this arm build?
         reg = r.reachable_from([tgt])
         others = set()
         for w2, t2 in arms.items():
-            if w2 != v: others |= r.reachable_from([t2])
+            if w2 != v and t2 != tgt: others |= r.reachable_from([t2])
         built = set()
         for b in r.blocks:
             if b["i"] in reg and b["i"] not in others:
                 for st in b["stmts"]:
                     if st["k"] == "assign" and st["rv"]["k"] == "aggr" and (st["rv"].get("path") or "").endswith("packet::Packet"): built.add(st["rv"]["vname"])
+        if built_path and (len(built) != 1): built = built_path        # merged arms (`2 | 3 => ..`): what is built on the path this tag value takes
         R[v] = (sorted(built), e)
     return W, R
 
